@@ -61,7 +61,7 @@ def cwfFVal (S : Schema) (g : Int) (f : Field) : FVal → Bool
        cwfVals S g f vs &&
        (if f.packed && f.kind.isNumeric then decide (sizePacked f.kind vs < 2 ^ 64) else true)
      | .map =>
-       f.kind != .group &&
+       f.kind == .message &&
        (match (S.msg f.sub).find 1, (S.msg f.sub).find 2 with
         | some kf, some vf => cwfEntries S f kf vf vs
         | _, _ => false)
